@@ -21,6 +21,10 @@ ALL_CLAIMED = ["C03","C04","C07","C10","C12","C16","C17","C18","C20"]
 TRUST = "Trusted: the simulator stubs (fidelity rules in DESIGN.md §2.3), the seam rewriter (its report of unseamed sites is in the evidence), the harness's own reference codec/models. Sampling, not proof."
 
 CLAIMED = {
+ "C07": dict(engine="order-world", cat="exploration",
+   text="Seeded multi-file programs (typedef chains also through structs and back, diamond and cyclic includes, dotted local names, same names in several files, constants and defaults referring to constants and enum items, services extending across files, some deliberately invalid) compiled under seeded schedules of the linker's resolution order (every range-over-map of the compiler behind a permutation seam: sorted, reverse, random, rotated, one-key-first) and of the definition order inside each file; oracles: identical outcome and identical canonical module-graph dump across all schedules, equality with an executable reference model of Thrift scoping and constant casting over the abstract program, one Module object per file, no nil typedef root or unresolved node.",
+   ref="DESIGN.md §4 C07", note=TRUST+" The reference model (progen/model.go) is trusted for the generated sub-language; ambiguous programs are not generated; constant references are type-compatible by construction.",
+   tech="deterministic simulation of the linker's resolution order (seeded map-iteration and definition orders) with a reference model as oracle"),
  "C04": dict(engine="wire-world", cat="exploration",
    text="Seeded runs over every struct-like type of the schema corpus regenerated from the tree's own templates: byte strings (encodings of valid reflected Go values, schema-evolution edits, byte-level mutations) decoded through FromWire(Decode) and through T.Decode over a simulated reader under seeded delivery schedules, peer death and I/O errors; Go values (valid and damaged) serialized through both serializers; oracles: equal values whenever both accept, value-based acceptance implies streaming acceptance, independence from segmentation and seekability, faults inside the struct never accepted, serializers fail together or produce encodings that decode to equal values.",
    ref="DESIGN.md §4 C04", note=TRUST+" Container counts above 32768 in mutated inputs are capped by the harness (C13's territory). Nothing is asserted about which inputs must be rejected.",
